@@ -19,6 +19,9 @@ SEEDS = [
     "PEPKTIDEK",
     "<[Oxidation]@M>[1]-MEPKTM[Methyl]DEK-[2]/3",
     "[XLMOD:01000]-PEP(TI)[Phospho][1.5]DEK[X:DSS]",
+    # a peptide whose mass cannot be determined (ambiguous residue B, a modification that carries no mass): every mass-like
+    # query raises, and must leave the object as it found it on that path too
+    "{Glycan:Hex}[Acetyl]-PEPB[INFO:note]TIDEK-[Amidated]/2",
 ]
 
 
@@ -235,7 +238,7 @@ def run(tier, seed, rep):
         for x in (names if thorough else rnd.sample(names, 12)):
             jobs.append((rnd.choice(SEEDS), [q, x, q], f"r{hid}"))
             hid += 1
-    seeds = SEEDS if thorough else [SEEDS[0], SEEDS[1], SEEDS[4]]
+    seeds = SEEDS if thorough else [SEEDS[0], SEEDS[1], SEEDS[4], SEEDS[5]]
     for text in seeds:
         for first in names:
             seconds = names if thorough else rnd.sample(names, 10)
